@@ -30,12 +30,12 @@ func feError(format string, args ...any) {
 }
 
 type Rec struct {
-	Type types.Type
-	CVal constant.Value
-	Ref  bool // recorded on the assignment-target side
-	CommaOk bool // compiled in two-value (comma-ok) mode: Type is the tuple (T, bool)
-	Val  ast.Node // the syntax the builder holds for the operand (what it will emit)
-	Fn   string   // key of the function being compiled ("" at package level)
+	Type    types.Type
+	CVal    constant.Value
+	Ref     bool     // recorded on the assignment-target side
+	CommaOk bool     // compiled in two-value (comma-ok) mode: Type is the tuple (T, bool)
+	Val     ast.Node // the syntax the builder holds for the operand (what it will emit)
+	Fn      string   // key of the function being compiled ("" at package level)
 }
 
 // OpEvent is one builder operation as seen by the monitor (internal/mon semantics of DESIGN.md E1).
@@ -56,7 +56,8 @@ type PkgUse struct {
 
 type Compiler struct {
 	Recs     map[ast.Expr]Rec
-	Decls    map[string]types.Type // "func/name" or "pkg/name" -> type the builder exposes for the declared object
+	Decls    map[string]types.Type     // "func/name" or "pkg/name" -> type the builder exposes for the declared object
+	DeclVals map[string]constant.Value // same keys, declared constants only: the value the builder's object carries
 	Pkg      *gogen.Package
 	Mon      func(ev OpEvent)
 	PkgUses  []PkgUse
@@ -128,6 +129,9 @@ func (c *Compiler) CompileFiles(files []File) {
 	c.cb = c.Pkg.CB()
 	if c.Decls == nil {
 		c.Decls = map[string]types.Type{}
+	}
+	if c.DeclVals == nil {
+		c.DeclVals = map[string]constant.Value{}
 	}
 	imps := make([]map[string]string, len(files))
 	for i, f := range files {
@@ -671,6 +675,9 @@ func (c *Compiler) recordDecls(names []string) {
 		}
 		if o := c.cb.Scope().Lookup(n); o != nil {
 			c.Decls[c.declKey(n)] = o.Type()
+			if k, ok := o.(*types.Const); ok && c.DeclVals != nil {
+				c.DeclVals[c.declKey(n)] = k.Val()
+			}
 		}
 	}
 }
